@@ -597,6 +597,34 @@ func (w *World) unitDone(cs *connState, buf []byte, ret int, err sipsp.ErrorHdr,
 		if w.mon.C19 && err == 0 {
 			ur.Sig = oracle.TakeSig(&md.M, cs.c.Cfg)
 		}
+		if w.mon.C11 && err == 0 {
+			// relocation clause: reported URIs follow the buffer through a history of moves
+			// (positions are a function of the scenario: start offset, junk, stream length)
+			mv := []int{cs.start, (cs.start*7 + len(buf)) % 60000, 0, (len(cs.c.Junk)*131 + ret) % 65000, 65535 - 600 + cs.start%300, ret}
+			m := &md.M
+			uris := []struct {
+				n string
+				f sipsp.PField
+			}{{"request", m.FL.URI}, {"From", m.PV.From.URI}, {"To", m.PV.To.URI}}
+			for i := 0; i < m.PV.Contacts.VNo() && i < len(m.PV.Contacts.Vals) && i < 3; i++ {
+				uris = append(uris, struct {
+					n string
+					f sipsp.PField
+				}{fmt.Sprintf("Contact[%d]", i), m.PV.Contacts.Vals[i].URI})
+			}
+			for _, x := range uris {
+				if int(x.f.Offs)+int(x.f.Len) > len(buf) {
+					continue
+				}
+				if d := oracle.C11URIMoves(x.n, buf, x.f, mv); d != "" {
+					w.fail(cs, "C11", "uri-relocation", d)
+					return
+				}
+				if w.st != nil && x.f.Len >= 5 {
+					w.st.probe("uri-relocation-history")
+				}
+			}
+		}
 	}
 	if !isMsg && definitive && w.mon.C10 {
 		if d := oracle.C10Sub(cs.c.Cfg, cs.drv, buf, err); d != "" {
